@@ -16,7 +16,7 @@ use crate::geom::{self, Lattice};
 use crate::statejson::{self, Params, ShapeSpec};
 
 pub const TITLE: &str = "Output is faithful: JSON round-trips and the SVG shows the same structure";
-pub const RULE: &str = "part roundtrip: states of both kinds, all groups and shapes, built with parameters from {in-range mixtures; cell parameters with arbitrary mantissa bits inside length 0.3..100, ratio 0.05..3, angle 0.05..pi-0.05; site parameters from raw finite f64 bit patterns, 17-significant-digit values, subnormals, +-0, the largest double}; oracle: s' = from_str(to_string(s)) re-serialises byte-identically, every number of the JSON tree is bit-identical (nothing missing or added), the parameters held in memory (read through the basis handles, not the serialiser) are bit-identical, score() and relative_positions() are bit-identical. part svg: in-range states; every <use href=#mol transform=matrix(a b c d e f)> of as_svg() is parsed and the multiset of matrices must equal, each exactly once, the harness's own Cartesian placements (ITA table, own lattice) and their 8 nearest lattice translates (rel 1e-12), and the 9 cell outlines the lattice translates of the identity. part cli: the .json written by the real binary re-reads to a state whose SVG is byte-identical to the written .svg and whose JSON re-serialises byte-identically; half of the runs write to a path whose .json/.svg already exist with 1..200000 bytes of earlier content (overwriting earlier results is the normal use). Non-trivial = a parameter whose shortest decimal form has 17 significant digits, or a group with a mirror/glide; distinct by hash of the case.";
+pub const RULE: &str = "part roundtrip: states of both kinds, all groups and shapes, built with parameters from {in-range mixtures; cell parameters with arbitrary mantissa bits inside length 0.3..100, ratio 0.05..3, angle 0.05..pi-0.05; site parameters from raw finite f64 bit patterns, 17-significant-digit values, subnormals, +-0, the largest double}; oracle: s' = from_str(to_string(s)) re-serialises byte-identically, every number of the JSON tree is bit-identical (nothing missing or added), the parameters held in memory (read through the basis handles, not the serialiser) are bit-identical, score() and relative_positions() are bit-identical. part svg: in-range states; every <use href=#mol transform=matrix(a b c d e f)> of as_svg() is parsed and the multiset of matrices must equal, each exactly once, the harness's own Cartesian placements (ITA table, own lattice) and their 8 nearest lattice translates (rel 1e-12), and the 9 cell outlines the lattice translates of the identity. part cli: the .json written by the real binary re-reads to a state whose SVG is byte-identical to the written .svg and whose JSON re-serialises byte-identically; half of the runs write to a path whose .json/.svg already exist with 1..200000 bytes of earlier content (overwriting earlier results is the normal use). Non-trivial = a parameter whose shortest decimal form has 17 significant digits, or a group with a mirror/glide; distinct by hash of the case. part multi-site: states with 1..6 occupied sites (initialise) in the 7 built-in groups and in three user-built groups (p4, p4mm in a square cell, c1m1): SVG multiset (when two copies coincide modulo the lattice only membership is checked) and the full JSON round-trip oracle.";
 
 pub fn assumptions() -> Vec<&'static str> {
     vec!["states are built through serde_json::Value so that the values under test are exact before the first text serialisation", "shape coordinates inside the JSON are included in the bit-exact comparison"]
@@ -173,6 +173,10 @@ impl Positions for packing::PotentialState<packing::LJShape2> {
 
 fn roundtrip<S: State + Serialize + DeserializeOwned + Positions>(template: S, p: &Params) -> Result<(), String> {
     let s: S = statejson::with_params(&template, p)?;
+    roundtrip_state(s)
+}
+
+fn roundtrip_state<S: State + Serialize + DeserializeOwned + Positions>(s: S) -> Result<(), String> {
     let v1 = serde_json::to_value(&s).map_err(|e| e.to_string())?;
     let text1 = serde_json::to_string(&s).map_err(|e| e.to_string())?;
     let s2: S = serde_json::from_str(&text1).map_err(|e| format!("the state's own JSON does not read back: {} (text: {})", e, &text1[..text1.len().min(300)]))?;
@@ -282,11 +286,16 @@ pub fn parse_uses(svg: &str) -> Result<Vec<(String, [f64; 6])>, String> {
 }
 
 pub fn check_svg(svg: &str, group: usize, p: &Params) -> Result<(), String> {
-    let uses = parse_uses(svg)?;
     let g = geom::group(group);
     let lat = Lattice::from_params(p.length, p.ratio, p.angle);
     let frac = geom::site_copies_fractional(&g, p.x, p.y, p.phi);
-    let copies = geom::site_copies_cartesian(&g, &lat, p.x, p.y, p.phi);
+    check_svg_copies(svg, &lat, &frac)
+}
+
+/// the same for any list of fractional placements (several occupied sites, user-built groups)
+pub fn check_svg_copies(svg: &str, lat: &Lattice, frac: &[geom::Aff]) -> Result<(), String> {
+    let uses = parse_uses(svg)?;
+    let copies: Vec<geom::Aff> = frac.iter().map(|a| geom::Aff { l: a.l, t: lat.to_cart(a.t) }).collect();
     let a = lat.va();
     let b = lat.vb();
     let scale = lat.a + lat.b;
@@ -324,6 +333,35 @@ pub fn check_svg(svg: &str, group: usize, p: &Params) -> Result<(), String> {
     let got: Vec<[f64; 6]> = uses.iter().filter(|(h, _)| h == "#mol").map(|(_, m)| *m).collect();
     if got.len() != 9 * copies.len() {
         return Err(format!("the SVG places the shape {} times, {} copies and their 8 nearest lattice images need {}", got.len(), copies.len(), 9 * copies.len()));
+    }
+    // two copies that are lattice translates of each other (sites that coincide modulo the lattice) cannot be told apart
+    // in the drawing: then only membership is checked, not the per-copy 3x3 blocks
+    let mut ambiguous = false;
+    for i in 0..frac.len() {
+        for j in (i + 1)..frac.len() {
+            if frac[i].l.max_abs_diff(frac[j].l) <= 1e-9 && geom::circ_dist(frac[i].t.x - frac[j].t.x, 0.) <= 1e-6 && geom::circ_dist(frac[i].t.y - frac[j].t.y, 0.) <= 1e-6 {
+                ambiguous = true;
+            }
+        }
+    }
+    if ambiguous {
+        for m in got.iter() {
+            let hit = copies.iter().any(|c| {
+                if !((m[0] - c.l.a).abs() <= 1e-12 && (m[1] - c.l.c).abs() <= 1e-12 && (m[2] - c.l.b).abs() <= 1e-12 && (m[3] - c.l.d).abs() <= 1e-12) {
+                    return false;
+                }
+                let d = crate::geom::P::new(m[4] - c.t.x, m[5] - c.t.y);
+                let f = minv.apply(d);
+                let (n, mm) = (f.x.round(), f.y.round());
+                let t = a.scale(n).add(b.scale(mm));
+                let tol = 1e-12 * (scale * (1. + n.abs() + mm.abs()) + m[4].abs() + m[5].abs());
+                (t.x - d.x).abs() <= tol && (t.y - d.y).abs() <= tol && n.abs() <= 2. && mm.abs() <= 2.
+            });
+            if !hit {
+                return Err(format!("<use href=#mol transform=matrix({} {} {} {} {} {})> is not one of the state's Cartesian placements translated by a lattice vector of its neighbourhood", m[0], m[1], m[2], m[3], m[4], m[5]));
+            }
+        }
+        return Ok(());
     }
     let mut blocks: Vec<std::collections::BTreeSet<(i64, i64)>> = vec![Default::default(); copies.len()];
     for m in got.iter() {
@@ -502,6 +540,73 @@ fn file_oracle(c: &FileCase, rec: &Rec, ctx: &Ctx) -> Result<(), String> {
     Ok(())
 }
 
+// ------------------------------------------------------------------------------------------------
+// multi-site: states with 1..6 occupied sites (as `initialise` builds them), in the 7 built-in groups and in user-built
+// groups of the square system (p4, p4mm) and a centred rectangular one (c1m1); JSON round trip and SVG
+
+#[derive(Clone, Debug, Serialize, Deserialize)]
+pub struct MultiCase {
+    pub spec: crate::multisite::MultiSpec,
+    pub kind: Kind,
+    /// Some(i): the i-th user-built group instead of spec.group
+    pub custom: Option<usize>,
+}
+
+fn multi_strat(_: &Ctx) -> BoxedStrategy<MultiCase> {
+    (kind_shape(), prop_oneof![3 => Just(None), 1 => (0usize..3).prop_map(Some)])
+        .prop_flat_map(|((kind, shape), custom)| (crate::multisite::multi_strat(Just(shape).boxed(), 0.02, 0.9, 1, 6), Just(kind), Just(custom)))
+        .prop_map(|(mut spec, kind, custom)| {
+            if let Some(i) = custom {
+                // a cell of the custom group's family (square for p4 / p4mm, rectangular for c1m1)
+                spec.angle = PI / 2.;
+                if i % 3 != 2 {
+                    spec.ratio = 1.;
+                }
+            }
+            MultiCase { spec, kind, custom }
+        })
+        .boxed()
+}
+
+fn multi_oracle(c: &MultiCase, rec: &Rec, ctx: &Ctx) -> Result<(), String> {
+    rec.eval(1);
+    let (wg, ops) = match c.custom {
+        Some(i) => crate::multisite::custom_group(i),
+        None => (statejson::wg(c.spec.group), geom::group(c.spec.group).ops.clone()),
+    };
+    let lat = c.spec.lattice();
+    let frac = crate::multisite::copies_fractional(&ops, &c.spec.sites);
+    macro_rules! both {
+        ($state:expr) => {{
+            let st = $state;
+            let shown = st.as_svg().to_string();
+            check_svg_copies(&shown, &lat, &frac).map_err(|e| format!("SVG of a state with {} occupied sites in {}: {}", c.spec.sites.len(), wg.name, e))?;
+            roundtrip_state(st)
+        }};
+    }
+    let res = match c.kind {
+        Kind::HardLine => both!(crate::multisite::packed_line_in(&wg, &c.spec)?),
+        Kind::HardMol => both!(crate::multisite::packed_mol_in(&wg, &c.spec)?),
+        Kind::Lj => both!(crate::multisite::potential_in(&wg, &c.spec)?),
+    };
+    if let Err(msg) = res {
+        if msg.starts_with("JSON round trip changed a value") && ctx.known.listed("C11", "serde-json-float-parse") {
+            rec.known("serde-json-float-parse", || msg.clone());
+        } else {
+            return Err(format!("{} (state with {} occupied sites in {})", msg, c.spec.sites.len(), wg.name));
+        }
+    }
+    let class = format!("{:?}/{}/{}sites", c.kind, wg.name, c.spec.sites.len());
+    rec.class(&class);
+    if c.spec.sites.len() >= 2 || c.custom.is_some() {
+        rec.nontrivial(hash_json(&serde_json::to_value(c).unwrap()));
+    }
+    if rec.wants_sample(&class) {
+        rec.sample(&class, || serde_json::to_value(c).unwrap());
+    }
+    Ok(())
+}
+
 pub fn parts() -> Vec<PartDef> {
-    vec![part("roundtrip", 1_000_000, 20_000_000, rt_strat, rt_oracle), part("svg", 400_000, 8_000_000, svg_strat, svg_oracle), part("cli", 320, 6_000, file_strat, file_oracle)]
+    vec![part("roundtrip", 1_000_000, 20_000_000, rt_strat, rt_oracle), part("svg", 400_000, 8_000_000, svg_strat, svg_oracle), part("cli", 320, 6_000, file_strat, file_oracle), part("multi-site", 50_000, 1_500_000, multi_strat, multi_oracle)]
 }
